@@ -480,6 +480,13 @@ func sameURL(a, b string) bool {
 	return u.Scheme == v.Scheme && u.Host == v.Host && u.Path == v.Path && u.RawQuery == v.RawQuery && u.Fragment == v.Fragment
 }
 
+func schemeOf(u *url.URL) string {
+	if u == nil {
+		return ""
+	}
+	return u.Scheme
+}
+
 func meaning(dest string) string {
 	v := gutil.UnescapePunctuations([]byte(dest))
 	v = gutil.ResolveNumericReferences(v)
@@ -1192,6 +1199,50 @@ func run(c *hx.Ctx) error {
 			fmt.Fprintf(os.Stderr, "SHRUNK %s %q :: %s\n", cl, shrunk, sdetail)
 		}
 		report("property", cl, "C29 replace "+proto.Hex([]byte(shrunk)), fmt.Sprintf("document %q (found with %q)", shrunk, d), sdetail, "", classify(c, shrunk, cl, sdetail))
+	}
+	// spec validation of the hypotheses of rewritten_is_absolute / idempotent_destination
+	// (UrlLaws in Lemmas/LinkDestUrl.lean) against net/url: (1) a parsed URL given the base scheme and
+	// relocated, printed and parsed again, has the base scheme; (2) every text the real replacer wrote,
+	// unescaped by the real markdownUnescape and parsed, has the base scheme (texts with U+00A0
+	// are outside the theorems)
+	{
+		base, _ := url.Parse(baseURL)
+		for _, d := range append(append([]string{}, dests...), destsOdd...) {
+			want, ok := resolved(d) // parse, base scheme, relocate, String — with net/url and path
+			if !ok {
+				continue
+			}
+			w, err := url.Parse(want)
+			res.SpecChecks["UrlLaws.relocated_reads_back (net/url)"]++
+			if err != nil || w.Scheme != base.Scheme {
+				report("correspondence", "spec-validation/UrlLaws.relocated_reads_back", "C29 url "+proto.Hex([]byte(d)), fmt.Sprintf("%q", d), fmt.Sprintf("String %q parses to scheme %q, %v", want, schemeOf(w), err), "scheme "+base.Scheme, "")
+			}
+		}
+		var texts []string
+		seenText := map[string]bool{}
+		for i := range docs {
+			for _, rp := range results[1+i].Repls {
+				if t := unhex(rp[2]); !seenText[t] && !strings.Contains(t, "\u00a0") {
+					seenText[t] = true
+					texts = append(texts, t)
+				}
+			}
+		}
+		var cs []tcase
+		for _, t := range texts {
+			cs = append(cs, tcase{Op: "unescape", Src: hexs(t)})
+		}
+		un, err := runReal(cs)
+		if err != nil {
+			return err
+		}
+		for i, t := range texts {
+			w, err := url.Parse(unhex(un[i].Out))
+			res.SpecChecks["rewritten text reads back with the base scheme (net/url)"]++
+			if err != nil || w.Scheme != base.Scheme {
+				report("correspondence", "spec-validation/rewritten-reads-back-absolute", "C29 unescape "+proto.Hex([]byte(t)), fmt.Sprintf("%q", t), fmt.Sprintf("scheme %q, %v", schemeOf(w), err), "scheme "+base.Scheme, "")
+			}
+		}
 	}
 	// applyReplacements
 	for i, a := range applies {
